@@ -16,6 +16,7 @@ From Coq Require Import ZArith NArith List Bool.
 Import ListNotations.
 From Stk Require Import Lib.U R.Syntax R.Rt R.Mon R.Eff R.Count R.OneStep.
 From Stk Require Import R.LinC05Core R.C05Proofs R.LinC03Mon R.LinC03K R.C03Proofs R.C03Full.
+From Stk Require Import R.MonX R.C03D.
 
 Theorem C03_once_partial :
   (forall a c s pre s' x,
@@ -64,6 +65,14 @@ Theorem C03_cause : forall (d : dkind) (p : list top) (fuel : nat) (t : list ev)
   exec d fuel p = Done t -> okK t = true.
 Proof. exact C03_cause_full. Qed.
 Print Assumptions C03_cause.
+
+(* the cause Dropped is delivered only for a request that was actually issued: when a notifier is invoked with
+   Dropped the trace shows no visible owner of that actor (global / thread-local deferrer, below counter saturation).
+   The check evaluates C03_ok && C03_dropped_ok on the real traces. *)
+Theorem C03_dropped_cause_issued : forall (p : list top) (fuel : nat) (t : list ev),
+  exec DGlobal fuel p = Done t -> (Z.of_nat (length t) < CMAX - 1)%Z -> C03_dropped_ok t = true.
+Proof. exact C03_dropped_cause_issued_proved. Qed.
+Print Assumptions C03_dropped_cause_issued.
 
 (* satisfiable, non-trivially: stop + fail in one body, kill of a Prep actor holding a call, owner drop, is_zombie *)
 Example C03_example :
